@@ -98,6 +98,11 @@ pub fn cfg_from_mask(mask: u32) -> walrus::ModuleConfig {
     for bit in order {
         set(&mut c, bit, mask & bit != 0);
     }
+    // bit 512 (with DWARF on): the code-transform switch is turned off after generate_dwarf(true) - the two setters
+    // are independent, DWARF generation stays on
+    if mask & 512 != 0 && mask & 1 != 0 {
+        c.preserve_code_transform(false);
+    }
     // bits beyond the seven boolean switches: an on_instr_loc callback (the ids handed to custom sections and
     // to the DWARF rewriter are then what the callback returns, not the input offsets)
     if mask & 128 != 0 {
